@@ -239,9 +239,19 @@ func (u *Url) SearchParams() *SearchParams {
 	return u.searchParams
 }
 
+// SetSearchParams replaces the URL's search parameters by a copy of the given list and updates the
+// query. The URL keeps its own SearchParams object (handles obtained earlier stay valid) and shares
+// nothing with the list it was given, which may belong to another URL.
 func (u *Url) SetSearchParams(searchParams *SearchParams) {
-	u.searchParams = searchParams
-	u.searchParams.update()
+	sp := u.SearchParams()
+	if searchParams != sp {
+		var params []*NameValuePair
+		if searchParams != nil {
+			params = searchParams.Clone().params
+		}
+		sp.params = params
+	}
+	sp.update()
 }
 
 func (u *Url) Query() string {
